@@ -75,8 +75,20 @@ class Report:
     def finish(self, t0, seed=0):
         reviewed = load_json(os.path.join(VERIF, "reviewed_sites.json"), {"sites": []})
         known = load_json(os.path.join(VERIF, "known_findings.json"), {"findings": []})
-        rev = {e["key"]: e for e in reviewed.get("sites", [])}
-        kno = {e["key"]: e for e in known.get("findings", []) if e.get("status") == "open"}
+        rev = {}
+        for e in reviewed.get("sites", []):
+            if "key" in e:
+                rev[e["key"]] = e
+            for r in e.get("rules", []):
+                rev["%s|%s|%s" % (r.split(".")[0], r, e["site"])] = e
+        kno = {}
+        for e in known.get("findings", []):
+            if e.get("status") != "open":
+                continue
+            if "key" in e:
+                kno[e["key"]] = e
+            for r in e.get("rules", []):
+                kno["%s|%s|%s" % (r.split(".")[0], r, e["site"])] = e
         violations = []
         reviewed_used = []
         known_matched = []
